@@ -13,6 +13,9 @@ MUTANTS = {
     'find_in_db_no_immediate': (C, 'EntityMeta._find_in_db_', [('if for_update: database._get_cache().immediate = True', 'pass')], 'lk0'),
     'fetch_no_immediate': (C, 'Query._actual_fetch', [('if query._for_update: cache.immediate = True', 'pass')], 'lk2'),
     'cache_hit_counts_as_locked': (C, 'EntityMeta._find_in_cache_', [('if for_update and obj not in cache.for_update:', 'if False:')], 'lk0'),
+    'written_objects_count_as_locked': (C, 'EntityMeta._find_in_cache_', [('                return None, unique  # object is found, but it is not locked', '''                if obj._status_ not in ('inserted', 'updated'): return None, unique
+                cache.for_update.add(obj)''')], 'lk0'),
+    'sql_key_lock_options_only': (C, 'Query._construct_sql_and_arguments', [('            for_update=query._for_update,\n            nowait=query._nowait,\n            skip_locked=query._skip_locked,\n', '            lock_options=(query._nowait, query._skip_locked),\n')], 'pg_lk'),
     'sql_key_without_for_update': (C, 'Query._construct_sql_and_arguments', [('            for_update=query._for_update,\n', '')], 'lk2'),
     'sql_key_without_nowait': (C, 'Query._construct_sql_and_arguments', [('            nowait=query._nowait,\n', '')], 'pg_lk'),
     'builder_swaps_options': (B, 'SQLBuilder.SELECT_FOR_UPDATE', [("' NOWAIT' if nowait else ''", "' NOWAIT' if skip_locked else ''"), ("' SKIP LOCKED' if skip_locked else ''", "' SKIP LOCKED' if nowait else ''")], 'pg_lk|k_builder'),
